@@ -25,7 +25,7 @@ def nontrivial(f):
 
 
 def run(sh):
-    n = 400 if sh.tier == 'quick' else 8000
+    n = 400 if sh.tier == 'quick' else 60000
     engine_line.run_profile(sh, 'C17', 'batching', n, MONITORS, nontrivial)
 
 
